@@ -29,8 +29,8 @@ type lckWorld struct {
 }
 
 func checkC20(w *World, r *Result) {
-	r.Explanation = "Decides, on every control-flow path of package generator (all schedules, all installed/missing/failing tool combinations, the tool being abstracted to an opaque exec call returning nil or an error): LCK-1 every access to a probe flag of Formatters happens with the cache mutex held; LCK-2 every Lock is released on all exits and never re-acquired while held; LCK-3 the external probe is control-dependent on the flag being nil and is followed on all paths by a store of a non-nil pointer into the same field, the cached boolean is (probe error == nil) and is what the probe function returns; LCK-4 the probe functions use pairwise distinct fields and FormatFile calls each exactly once, each run command being named in its probe's arguments; LCK-5 in FormatFile, per path: at most one probe; probe true => exactly one formatter run whose error is the returned value; probe false/no probe => no process/file-system call and nil is returned; LCK-6 Formatters is never copied and only has pointer-receiver methods; LCK-7 cmd shares one package-level cache and calls FormatFile once per goroutine; LCK-8 a goroutine started by the production code stores into a captured variable only when no other goroutine can touch that cell (so the error of a formatter run is not overwritten by another run). Does not decide: races inside the external tools on the file itself, nor saveOutputs turning an error into a goroutine panic."
-	r.Rules = []string{"LCK-1 guarded-by", "LCK-2 lock pairing", "LCK-3 probe typestate", "LCK-4 bijection", "LCK-5 FormatFile paths", "LCK-6 no copies", "LCK-7 sharing in cmd", "LCK-8 goroutine writes"}
+	r.Explanation = "Decides, on every control-flow path of package generator (all schedules, all installed/missing/failing tool combinations, the tool being abstracted to an opaque exec call returning nil or an error): LCK-1 every access to a probe flag of Formatters happens with the cache mutex held; LCK-2 every Lock is released on all exits and never re-acquired while held; LCK-3 the external probe is control-dependent on the flag being nil and is followed on all paths by a store of a non-nil pointer into the same field, the cached boolean is (probe error == nil) and is what the probe function returns; LCK-4 the probe functions use pairwise distinct fields and FormatFile calls each exactly once, each run command being named in its probe's arguments; LCK-5 in FormatFile, per path: at most one probe; probe true => exactly one formatter run whose error is the returned value; probe false/no probe => no process/file-system call and nil is returned; LCK-6 Formatters is never copied and only has pointer-receiver methods; LCK-7 cmd shares one package-level cache and calls FormatFile once per goroutine; LCK-8 a goroutine started by the production code stores into a captured variable only when no other goroutine can touch that cell (so the error of a formatter run is not overwritten by another run). LCK-9 a goroutine that signals a sync.WaitGroup calls Done on every path on which it returns (else the caller waits forever and the error is never reported). Does not decide: races inside the external tools on the file itself, nor saveOutputs turning an error into a goroutine panic."
+	r.Rules = []string{"LCK-1 guarded-by", "LCK-2 lock pairing", "LCK-3 probe typestate", "LCK-4 bijection", "LCK-5 FormatFile paths", "LCK-6 no copies", "LCK-7 sharing in cmd", "LCK-8 goroutine writes", "LCK-9 WaitGroup.Done on every return"}
 	r.TrustedBase = []string{"go/ssa CFG construction (x/tools v0.29.0)", "Go memory model for sync.Mutex", "(*exec.Cmd).Run treated as an opaque call returning an error", "package-level visibility of the unexported Formatters fields", "this checker (gmverif lck.go)"}
 	r.Assumptions = []string{"the external tool is abstracted to: Run returns nil or non-nil", "no reflection/unsafe access to Formatters (checked: package generator imports neither)"}
 
@@ -63,6 +63,7 @@ func checkC20(w *World, r *Result) {
 	if len(lw.flagIdx) == 0 {
 		Undecided("Formatters has no probe flag field")
 	}
+	r.note("waitgroup_goroutines", wgDoneRule(w, r, nil)) // zero is fine: the rule binds whoever uses a WaitGroup
 	genPkg := w.ByRel["generator"]
 	for _, imp := range genPkg.Types.Imports() {
 		if imp.Path() == "unsafe" || imp.Path() == "reflect" {
